@@ -18,6 +18,17 @@ applied in this order:
            that combination is not produced (hypothesis `splitsCRLF` of the Lean lemma);
   ctl      STX / ETX inserted at arbitrary positions (also between CR and LF, at the very start, inside words).
 
+"For the configured tab length": in 30 % of the cases with a `tabs` variation the variant is first converted by ANOTHER instance (same
+process) configured with another tab length; that must not influence the instance under test (`pre_tab` in the violation input).
+
+Known region, tagged (rare: about one case in 300 000 falls into it; not avoided):
+  F-C09-2  the blank-document shortcut of `convert` (`if not source.strip(): return ''`, core.py:341) looks at the source BEFORE STX/ETX are
+           removed.  A document of white space only gives ''; the same document with a stray STX/ETX is not "blank", is normalised to the same
+           white space and goes through the pipeline, which makes `<pre><code>\n</code></pre>` of an indented line whose content is white space
+           other than space/tab (`'    \x0b'`; VT FF FS GS RS US NEL NBSP and the Unicode spaces are `str.isspace` but are not emptied by
+           NormalizeWhitespace).  Region (narrow): base and variant are both white space only after removing STX/ETX, exactly one of them is
+           blank for `str.strip`, and one output is ''.  (Same finding as the kernel-checked counterexample `C09_doc_ctl_counterexample`.)
+
 F-C09-1 (a whitespace-only first line was not emptied) is REPAIRED (regex `(?<![^\n]) +\n`): nothing avoids or tags that region any
 more -- base documents with a whitespace-only first line, `wslines` on line 1 and `pad` in front of such documents are generated on
 purpose; the FINDINGS witnesses are kept (status fixed: `replay` is False on the repaired tree, True if the defect returns).  Likewise an
@@ -40,6 +51,9 @@ FINDINGS = [
      'witness': {'base': '\n===', 'variant': '  \n===', 'tab_length': 4, 'extensions': []}},
     {'id': 'F-C09-1', 'property': 'C09', 'status': 'fixed', 'what': 'a blank line padded in front of a document whose first line is whitespace-only changes the output',
      'witness': {'base': '    \nfoo', 'variant': '\n    \nfoo', 'tab_length': 4, 'extensions': []}},
+    {'id': 'F-C09-2', 'property': 'C09', 'status': 'open',
+     'what': 'the blank-document shortcut of convert (`not source.strip()`) is tested BEFORE STX/ETX are removed: a document of white space only is answered with the empty string, the same document with a stray STX/ETX goes through the pipeline, which renders an indented white-space character other than space/tab (VT, FF, FS, NBSP ...) as an empty code block (kernel-checked in Props/C09Doc.lean: C09_doc_ctl_counterexample)',
+     'witness': {'base': '    \x0b', 'variant': '\x02    \x0b', 'tab_length': 4, 'extensions': []}},
 ]
 
 STX, ETX = '\x02', '\x03'
@@ -145,6 +159,18 @@ def v_ctl(rng, d):
     return d, k
 
 
+def strip_ctl(s):
+    return s.replace(STX, '').replace(ETX, '')
+
+
+def blank_shortcut_region(base, variant):
+    """F-C09-2, narrow: both documents are white space only once STX/ETX are removed (`str.strip` leaves nothing), and exactly one of them is
+    blank for `convert`'s shortcut `not source.strip()`, i.e. the other one contains a stray STX/ETX.  (The shortcut answers '' for the one,
+    the pipeline runs on the other.)"""
+    if strip_ctl(base).strip() or strip_ctl(variant).strip(): return False
+    return bool(base.strip()) != bool(variant.strip())
+
+
 def gen_case(rng):
     t = rng.choice([2, 4, 4, 8])
     exts = common.ext_subset(rng, SAFE_EXT, 3) if rng.random() < 0.25 else []
@@ -165,7 +191,10 @@ def gen_case(rng):
         if n: done.append(c)
     if v == base:
         v, n = v_ctl(rng, v); done.append('ctl')
-    return {'base': base, 'variant': v, 'tab_length': t, 'extensions': exts, 'clauses': done}
+    # "for the configured tab length": the same tabbed text converted first by ANOTHER instance with another tab length (same process)
+    # must not influence this instance
+    pre_tab = rng.choice([x for x in (2, 4, 8) if x != t]) if ('tabs' in done and rng.random() < 0.3) else None
+    return {'base': base, 'variant': v, 'tab_length': t, 'extensions': exts, 'clauses': done, 'pre_tab': pre_tab}
 
 
 def evaluate(case, cache=None):
@@ -174,6 +203,13 @@ def evaluate(case, cache=None):
     if k not in cache: cache[k] = markdown.Markdown(tab_length=case['tab_length'], extensions=list(case['extensions']))
     md = cache[k]
     res = []
+    if case.get('pre_tab'):
+        k0 = (case['pre_tab'], tuple(case['extensions']))
+        if k0 not in cache: cache[k0] = markdown.Markdown(tab_length=case['pre_tab'], extensions=list(case['extensions']))
+        try:
+            cache[k0].reset().convert(case['variant'])
+        except Exception:
+            del cache[k0]
     for src in (case['base'], case['variant']):
         try:
             res.append(('ok', md.reset().convert(src)))
@@ -183,12 +219,13 @@ def evaluate(case, cache=None):
     if res[0][0] == 'exc' or res[1][0] == 'exc':
         if 'RecursionError' in (res[0][1], res[1][1]): return 'skip', 'recursion'
         # any other exception -- also when base and variant raise alike -- is reported (F-C02-1, the `<![` assertion, is repaired)
-        return 'viol', {'input': {k2: case[k2] for k2 in ('base', 'variant', 'clauses')}, 'config': {'tab_length': case['tab_length'], 'extensions': case['extensions']},
+        return 'viol', {'input': {k2: case.get(k2) for k2 in ('base', 'variant', 'clauses', 'pre_tab')}, 'config': {'tab_length': case['tab_length'], 'extensions': case['extensions']},
                         'observed': 'variant: %s %s' % res[1], 'required': 'base: %s %s' % res[0], 'finding': None}
     o0, o1 = res[0][1], res[1][1]
     if o0 == o1: return 'ok', o0
     finding = None                                     # F-C09-1 is repaired: a recurrence is an ordinary violation
-    return 'viol', {'input': {k: case[k] for k in ('base', 'variant', 'clauses')}, 'config': {'tab_length': case['tab_length'], 'extensions': case['extensions']},
+    if blank_shortcut_region(case['base'], case['variant']) and '' in (o0, o1): finding = 'F-C09-2'
+    return 'viol', {'input': {k: case.get(k) for k in ('base', 'variant', 'clauses', 'pre_tab')}, 'config': {'tab_length': case['tab_length'], 'extensions': case['extensions']},
                     'observed': repr(o1), 'required': repr(o0), 'finding': finding}
 
 
@@ -204,6 +241,7 @@ def search(driver, rng, n):
         for c in case['clauses']: bump('clause:' + c)
         bump('tab_length:%d' % case['tab_length'])
         if case['extensions']: bump('with-extensions')
+        if case.get('pre_tab'): bump('other-tab-length-first')
         if '<' in case['base']: bump('base-has-<')
         st, d = evaluate(case, cache)
         if st == 'skip': bump('skip:' + d); continue
@@ -222,5 +260,6 @@ def replay(witness):
 
 
 def replay_violation(v):
-    case = {'base': v['input']['base'], 'variant': v['input']['variant'], 'tab_length': v['config']['tab_length'], 'extensions': v['config']['extensions'], 'clauses': []}
+    case = {'base': v['input']['base'], 'variant': v['input']['variant'], 'tab_length': v['config']['tab_length'], 'extensions': v['config']['extensions'], 'clauses': [],
+            'pre_tab': v['input'].get('pre_tab')}
     return evaluate(case)[0] == 'viol'
